@@ -498,7 +498,7 @@ Proof.
     destruct (Nat.ltb_spec pos ppos); simpl in H; try discriminate. lia.
   - intros H pos Hin. destruct (Nat.eqb_spec pos ppos) as [|Hne]; auto.
     destruct (nth_error t pos) as [[v [|i]]|] eqn:E; auto.
-    destruct (H pos v i Hne eq_refl) as [Ha Hb].
+    destruct (H pos v i Hne E) as [Ha Hb].
     unfold plt, peq. rewrite Ha. simpl.
     destruct (ple (find_prob rs (upd t pos pred) base) pprob) eqn:E2; simpl; auto.
     specialize (Hb eq_refl). destruct (Nat.ltb_spec pos ppos); simpl; auto. lia.
@@ -603,36 +603,35 @@ Proof.
   assert (Hne' : pos' <> pos) by congruence.
   destruct (Hm pos' v' i' Hne' Hn') as [Ha Hb].
   destruct (Hm' pos v i Hne Hn) as [Ha' Hb'].
-  rewrite Hp in Ha, Hb, Ha', Hb'. rewrite Hp' in Ha, Hb, Ha', Hb'. simpl in *.
+  subst p p'. simpl in *.
   specialize (Hb Ha'). specialize (Hb' Ha). lia.
 Qed.
 
 Lemma adopts_exists c : good rs c -> parents rs c <> [] -> exists p, adopts p c.
 Proof.
   intros Hg Hne.
-  set (t := ipt c). set (base := ibase c).
-  set (cand := fun pos => match nth_error t pos with Some (_, S _) => true | _ => false end).
-  set (w := fun pos => find_prob rs (upd t pos pred) base).
+  pose (cand := fun pos => match nth_error (ipt c) pos with Some (_, S _) => true | _ => false end).
+  pose (w := fun pos => find_prob rs (upd (ipt c) pos pred) (ibase c)).
   destruct (good_ok c Hg) as [Hb Ht].
   pose proof Hg as [b [_ [_ [_ [Hbd Hpr]]]]].
-  destruct (lexmin_exists cand w (length t)) as [m [Hm [Hcm Hmin]]].
+  destruct (lexmin_exists cand w (length (ipt c))) as [m [Hm [Hcm Hmin]]].
   - intros k Hk Hc. unfold cand in Hc.
-    destruct (nth_error t k) as [[v [|i]]|] eqn:E; try discriminate.
+    destruct (nth_error (ipt c) k) as [[v [|i]]|] eqn:E; try discriminate.
     unfold w. apply find_prob_ok; auto. eapply okpt_upd; eauto. simpl.
     pose proof (nth_error_bound _ _ _ _ _ Hbd E). lia.
   - destruct (parents rs c) as [|p l] eqn:E; [congruence|].
     assert (Hin : In p (parents rs c)) by (rewrite E; left; auto).
     apply In_parents in Hin. destruct Hin as [pos [v [i [Hn _]]]].
     exists pos. split.
-    + apply nth_error_Some. fold t in Hn. congruence.
-    + unfold cand. fold t in Hn. rewrite Hn. auto.
-  - unfold cand in Hcm. destruct (nth_error t m) as [[v [|i]]|] eqn:E; try discriminate.
-    exists (mk rs (itag c) (upd t m pred) base), m, v, i.
+    + apply nth_error_Some. congruence.
+    + unfold cand. rewrite Hn. auto.
+  - unfold cand in Hcm. destruct (nth_error (ipt c) m) as [[v [|i]]|] eqn:E; try discriminate.
+    exists (mk rs (itag c) (upd (ipt c) m pred) (ibase c)), m, v, i.
     split; auto. split; auto. simpl.
     apply my_child_spec. intros pos v' i' Hne' Hn'.
     apply (Hmin pos); auto.
-    + apply nth_error_Some. fold t. congruence.
-    + unfold cand. fold t in Hn'. rewrite Hn'. auto.
+    + apply nth_error_Some. congruence.
+    + unfold cand. rewrite Hn'. auto.
 Qed.
 
 Lemma In_find_children x c :
@@ -694,6 +693,252 @@ Proof.
     rewrite nth_error_upd_other in E' by congruence.
     rewrite E1 in E'. inversion E'. lia.
 Qed.
+
+(* ------------------------------------------------------------------ *)
+(* T6: the closure theorem                                             *)
+(* ------------------------------------------------------------------ *)
+
+Lemma run_S_end pop n (s : state) :
+  run pop rs (S n) s = step pop rs (run pop rs n s).
+Proof.
+  unfold run, step. revert s. induction n as [|n IH]; intros s; simpl; auto.
+  rewrite <- IH. reflexivity.
+Qed.
+
+Definition closure_set (inS : item -> bool) : list item :=
+  filter inS (all_preterminals rs).
+Definition closure_frontier (inS : item -> bool) : list item :=
+  filter (fun c => inS c && negb (existsb inS (parents rs c))) (all_preterminals rs).
+
+(* H1 *)
+Definition down_closed (inS : item -> bool) : Prop :=
+  forall c p, In c (all_preterminals rs) -> In p (parents rs c) ->
+    inS p = true -> inS c = true.
+(* H2 *)
+Definition adopter_closed (inS : item -> bool) : Prop :=
+  forall c p, In c (all_preterminals rs) -> inS c = true ->
+    existsb inS (parents rs c) = true -> adopts p c -> inS p = true.
+
+Section Closure.
+Variable pop : queue -> option (item * queue).
+Hypothesis Hpop : pop_ok_okb pop.
+Variable inS : item -> bool.
+Hypothesis H1 : down_closed inS.
+Hypothesis H2 : adopter_closed inS.
+
+Local Notation SS := (closure_set inS).
+Local Notation FF := (closure_frontier inS).
+
+Record Inv (s : state) : Prop := {
+  inv_nodup : NoDup (emitted s ++ pending s);
+  inv_sub : forall x, In x (emitted s ++ pending s) -> In x SS;
+  inv_front : forall c, In c FF -> In c (emitted s ++ pending s);
+  inv_adopt : forall c, In c SS -> existsb inS (parents rs c) = true ->
+       (In c (emitted s ++ pending s) <-> exists p, adopts p c /\ In p (emitted s));
+  inv_sorted : nonincreasing (rev (emitted s));
+  inv_le : forall e q, In e (emitted s) -> In q (pending s) ->
+       ple (iprob q) (iprob e) = true
+}.
+
+Lemma SS_good x : In x SS -> good rs x /\ inS x = true.
+Proof.
+  unfold closure_set. rewrite filter_In. intros [H Hs]. split; auto.
+  apply In_all_preterminals; auto.
+Qed.
+
+Lemma SS_intro x : good rs x -> inS x = true -> In x SS.
+Proof.
+  intros. unfold closure_set. apply filter_In. split; auto. apply In_all_preterminals; auto.
+Qed.
+
+Lemma NoDup_SS : NoDup SS.
+Proof. apply NoDup_filter. apply NoDup_all_preterminals. Qed.
+
+Lemma Inv_init q0 : Permutation q0 FF -> Inv {| emitted := []; pending := q0 |}.
+Proof.
+  intros Hp. constructor; simpl.
+  - apply (Permutation_NoDup (Permutation_sym Hp)).
+    apply NoDup_filter. apply NoDup_all_preterminals.
+  - intros x Hx. apply (Permutation_in _ Hp) in Hx.
+    unfold closure_frontier in Hx. apply filter_In in Hx. destruct Hx as [Hx Hb].
+    apply andb_true_iff in Hb. destruct Hb as [Hb _].
+    apply filter_In. auto.
+  - intros c Hc. apply (Permutation_in _ (Permutation_sym Hp)). auto.
+  - intros c Hc He. split.
+    + intros Hx. apply (Permutation_in _ Hp) in Hx.
+      unfold closure_frontier in Hx. apply filter_In in Hx. destruct Hx as [Hx Hb].
+      rewrite He in Hb. apply andb_true_iff in Hb. destruct Hb as [_ Hb]. discriminate.
+    + intros [p [_ []]].
+  - constructor.
+  - intros e q [].
+Qed.
+
+Lemma Inv_step s : Inv s -> Inv (step pop rs s).
+Proof.
+  intros HI. unfold step, step_gen.
+  destruct (pop (pending s)) as [[x r]|] eqn:Ep; auto.
+  destruct Hpop as [_ Hp2].
+  destruct s as [E Q]. simpl in *.
+  destruct HI as [Hnd Hsub Hfront Hadopt Hsorted Hle]. simpl in *.
+  assert (Hokq : Forall (fun y => okb (iprob y) = true) Q).
+  { apply Forall_forall. intros y Hy. apply good_iprob_ok. apply SS_good.
+    apply Hsub. apply in_app_iff. auto. }
+  destruct (Hp2 _ _ _ Hokq Ep) as [Hperm Hmax].
+  assert (HxQ : In x Q).
+  { apply (Permutation_in _ (Permutation_sym Hperm)). left; auto. }
+  assert (HxSS : In x SS) by (apply Hsub; apply in_app_iff; auto).
+  destruct (SS_good x HxSS) as [Hgx HSx].
+  assert (Hch : forall c, In c (find_children rs x) ->
+            good rs c /\ adopts x c /\ In c SS /\
+            existsb inS (parents rs c) = true /\ ~ In c (E ++ Q)).
+  { intros c Hc. apply (In_find_children x c Hgx) in Hc. destruct Hc as [Hgc Had].
+    pose proof (adopts_parent _ _ Had) as Hpar.
+    assert (HSc : inS c = true).
+    { apply (H1 c x); auto. apply In_all_preterminals; auto. }
+    assert (Hex : existsb inS (parents rs c) = true).
+    { apply existsb_exists. exists x. auto. }
+    assert (HcSS : In c SS) by (apply SS_intro; auto).
+    repeat split; auto.
+    intros Hin. apply (Hadopt c HcSS Hex) in Hin. destruct Hin as [p [Hp HpE]].
+    assert (p = x) by (eapply adopts_unique; eauto). subst p.
+    eapply NoDup_app_disj; eauto. }
+  assert (Hstep_in : forall c, In c (x :: E ++ find_children rs x ++ r) <->
+                               In c (find_children rs x) \/ In c (E ++ Q)).
+  { intros c. simpl. rewrite !in_app_iff. split.
+    - intros [<-|[H|[H|H]]]; auto.
+      right; right. apply (Permutation_in _ (Permutation_sym Hperm)). right; auto.
+    - intros [H|[H|H]]; auto.
+      apply (Permutation_in _ Hperm) in H. destruct H as [<-|H]; auto. }
+  assert (Hokall : forall y, In y (E ++ Q) -> okb (iprob y) = true).
+  { intros y Hy. apply good_iprob_ok. apply SS_good. auto. }
+  constructor; cbn [emitted pending app].
+  - (* NoDup *)
+    assert (N1 : NoDup (x :: E ++ r)).
+    { apply (Permutation_NoDup (l := E ++ Q)); auto.
+      eapply perm_trans; [apply Permutation_app_head; apply Hperm|].
+      apply Permutation_sym. apply Permutation_middle. }
+    apply (Permutation_NoDup (l := find_children rs x ++ x :: E ++ r)).
+    + apply Permutation_sym.
+      eapply perm_trans; [apply perm_skip; apply Permutation_app_swap_app|].
+      apply Permutation_middle.
+    + apply NoDup_app_intro; auto.
+      * apply NoDup_find_children.
+      * intros c Hc Hin. destruct (Hch c Hc) as [_ [_ [_ [_ Hn]]]]. apply Hn.
+        rewrite in_app_iff. simpl in Hin. rewrite in_app_iff in Hin.
+        destruct Hin as [<-|[Hin|Hin]]; auto.
+        right. apply (Permutation_in _ (Permutation_sym Hperm)). right; auto.
+  - (* sub *)
+    intros c Hc. apply Hstep_in in Hc. destruct Hc as [Hc|Hc]; auto.
+    apply Hch; auto.
+  - (* front *)
+    intros c Hc. apply Hstep_in. right. auto.
+  - (* adopt *)
+    intros c HcSS Hex. rewrite Hstep_in. split.
+    + intros [Hc|Hc].
+      * exists x. split; [apply Hch; auto|left; auto].
+      * apply (Hadopt c HcSS Hex) in Hc. destruct Hc as [p [Hp HpE]]. exists p.
+        split; [auto|right; auto].
+    + intros [p [Hp [<-|HpE]]].
+      * left. apply In_find_children; auto. split; auto. apply SS_good; auto.
+      * right. apply (Hadopt c HcSS Hex). exists p. auto.
+  - (* sorted *)
+    unfold nonincreasing. simpl. apply StronglySorted_snoc; auto.
+    apply Forall_forall. intros a Ha. apply in_rev in Ha. apply Hle; auto.
+  - (* le *)
+    assert (Hchle : forall q, In q (find_children rs x) -> ple (iprob q) (iprob x) = true).
+    { intros q Hq. destruct (Hch q Hq) as [Hgq [Had _]].
+      apply (parent_props x q Hgq). apply adopts_parent; auto. }
+    intros e q [<-|He] Hq; apply in_app_iff in Hq; destruct Hq as [Hq|Hq].
+    + auto.
+    + rewrite Forall_forall in Hmax. apply not_plt_ple. auto.
+    + apply (ple_trans A (iprob q) (iprob x) (iprob e)); auto.
+      * apply good_iprob_ok. apply Hch; auto.
+      * apply Hokall. apply in_app_iff; auto.
+      * apply Hokall. apply in_app_iff; auto.
+    + apply Hle; auto. apply (Permutation_in _ (Permutation_sym Hperm)). right; auto.
+Qed.
+
+Lemma Inv_run n s : Inv s -> Inv (run pop rs n s).
+Proof.
+  induction n as [|n IH]; intros H; [exact H|].
+  rewrite run_S_end. apply Inv_step. auto.
+Qed.
+
+(* Exhaustion: when the queue is empty, everything in the set was emitted *)
+Lemma Inv_exhausted s :
+  Inv s -> pending s = [] -> forall c, In c SS -> In c (emitted s).
+Proof.
+  intros HI Hq.
+  assert (Hrk : forall k c, rank (ipt c) < k -> In c SS -> In c (emitted s)).
+  { induction k as [|k IH]; intros c Hk Hc; [lia|].
+    destruct (SS_good c Hc) as [Hgc HSc].
+    assert (Hgoal : In c (emitted s ++ pending s)).
+    { destruct (existsb inS (parents rs c)) eqn:Ex.
+      - assert (Hne : parents rs c <> []).
+        { intros E0. rewrite E0 in Ex. discriminate. }
+        destruct (adopts_exists c Hgc Hne) as [p Hp].
+        apply (inv_adopt s HI c Hc Ex). exists p. split; auto.
+        pose proof (adopts_parent _ _ Hp) as Hpar.
+        destruct (parent_props p c Hgc Hpar) as [Hgp [_ Hr]].
+        apply IH; [lia|]. apply SS_intro; auto.
+        apply (H2 c p); auto. apply In_all_preterminals; auto.
+      - apply (inv_front s HI). unfold closure_frontier. apply filter_In. split.
+        + apply In_all_preterminals; auto.
+        + rewrite HSc, Ex. reflexivity. }
+    rewrite Hq, app_nil_r in Hgoal. auto. }
+  intros c Hc. apply (Hrk (S (rank (ipt c)))); auto.
+Qed.
+
+Lemma Inv_length s : Inv s -> length (emitted s ++ pending s) <= length SS.
+Proof.
+  intros HI. apply NoDup_incl_length.
+  - apply (inv_nodup s HI).
+  - intros x Hx. apply (inv_sub s HI); auto.
+Qed.
+
+Lemma Inv_productive s :
+  Inv s -> length (emitted s) < length SS -> pending s <> [].
+Proof.
+  intros HI Hlt Hq.
+  assert (length SS <= length (emitted s)); [|lia].
+  apply NoDup_incl_length; [apply NoDup_SS|].
+  intros c Hc. apply Inv_exhausted; auto.
+Qed.
+
+Lemma run_length n s0 :
+  Inv s0 -> emitted s0 = [] -> n <= length SS -> length (emitted (run pop rs n s0)) = n.
+Proof.
+  intros HI0 He0. induction n as [|n IH]; intros Hn.
+  - unfold run. simpl. rewrite He0. reflexivity.
+  - rewrite run_S_end. specialize (IH ltac:(lia)).
+    pose proof (Inv_run n s0 HI0) as HI.
+    assert (Hne : pending (run pop rs n s0) <> []).
+    { apply Inv_productive; auto. lia. }
+    unfold step, step_gen.
+    destruct (pop (pending (run pop rs n s0))) as [[x r]|] eqn:Ep.
+    + simpl. lia.
+    + destruct Hpop as [Hp1 _]. apply Hp1 in Ep. contradiction.
+Qed.
+
+Lemma run_complete s0 :
+  Inv s0 -> emitted s0 = [] ->
+  let s := run pop rs (length SS) s0 in
+  Permutation (emitted s) SS /\ pending s = [].
+Proof.
+  intros HI0 He0 s.
+  pose proof (Inv_run (length SS) s0 HI0) as HI. fold s in HI.
+  pose proof (run_length (length SS) s0 HI0 He0 (le_n _)) as Hlen. fold s in Hlen.
+  pose proof (Inv_length s HI) as Hall. rewrite app_length in Hall.
+  assert (Hq : pending s = []).
+  { destruct (pending s); auto. simpl in Hall. lia. }
+  split; auto.
+  apply NoDup_Permutation_bis.
+  - apply (NoDup_app_l _ _ (inv_nodup s HI)).
+  - lia.
+  - intros x Hx. apply (inv_sub s HI). apply in_app_iff. auto.
+Qed.
+
+End Closure.
 
 End WithWf.
 
